@@ -220,7 +220,7 @@ class Exec:
         return results, todo
 
 
-def explore_parallel(make, fn_name, pool_size, on_path_name=None, seed_paths=48,
+def explore_parallel(make, fn_name, pool_size, on_path_name=None, seed_paths=160,
                      max_decisions=0, time_budget=None):
     """Explore all paths of harness `make()` -> object with attributes pre, and methods named
     fn_name / on_path_name, using a fork pool.  The master explores breadth-first until it
